@@ -35,18 +35,28 @@ E2 == Unary(E1) \cup Bins(E0, E1) \cup Bins(E1, E0)
 E3 == Unary(E2) \cup Bins(E0, E2) \cup Bins(E1, E1) \cup Bins(E2, E0)
 All == E0 \cup (IF K >= 1 THEN E1 ELSE {}) \cup (IF K >= 2 THEN E2 ELSE {}) \cup (IF K >= 3 THEN E3 ELSE {})
 
-VARIABLES e, done
-Init == e \in All /\ done = FALSE
-Next == ~done /\ done' = TRUE /\ UNCHANGED e
-Val == Eval(e, Env, {})
+\* second environment: the arrays were indexed and then declared again with other contents and shapes
+Env2 == << [n |-> "x", v |-> Flt(3, 4)], [n |-> "n", v |-> IntV(5)], [n |-> "z", v |-> Num("complex", <<1, 2>>, <<-1, 1>>)],
+           [n |-> "A", v |-> Arr("int", << <<IntV(9), IntV(8), IntV(3), IntV(6)>> >>)],
+           [n |-> "B", v |-> Arr("float", << <<Flt(1, 2)>>, <<Flt(5, 4)>>, <<Flt(4, 1)>> >>)] >>
+RECURSIVE HasIdx(_)
+HasIdx(x) == CASE x.t = "idx" -> TRUE
+               [] x.t = "bin" -> HasIdx(x.l) \/ HasIdx(x.r)
+               [] x.t \in {"neg", "pos", "brk", "fn"} -> HasIdx(x.a)
+               [] OTHER -> FALSE
+VARIABLES e, envsel, done
+Init == e \in All /\ done = FALSE /\ envsel \in (IF HasIdx(e) THEN {1, 2} ELSE {1})
+Next == ~done /\ done' = TRUE /\ UNCHANGED <<e, envsel>>
+TheEnv == IF envsel = 1 THEN Env ELSE Env2
+Val == Eval(e, TheEnv, {})
 
 \* ---- the property's kind rules, as invariants over every enumerated tree
 RECURSIVE HasKind(_, _)
 HasKind(x, ks) == CASE x.t = "bin" -> HasKind(x.l, ks) \/ HasKind(x.r, ks)
                     [] x.t \in {"neg", "pos", "brk"} -> HasKind(x.a, ks)
                     [] x.t = "fn" -> "float" \in ks \/ HasKind(x.a, ks)
-                    [] x.t = "idx" -> Eval(x, Env, {}).k \in ks
-                    [] x.t = "var" -> Get(Env, x.x).k \in ks
+                    [] x.t = "idx" -> Eval(x, TheEnv, {}).k \in ks
+                    [] x.t = "var" -> Get(TheEnv, x.x).k \in ks
                     [] x.t = "pi" -> "float" \in ks
                     [] OTHER -> (CASE x.t = "int" -> "int" [] x.t = "flt" -> "float" [] x.t = "cpx" -> "complex") \in ks
 RECURSIVE HasDiv(_)
@@ -57,8 +67,8 @@ KindRule == (done /\ IsNum(Val)) =>
               /\ (HasKind(e, {"complex"}) => Val.k = "complex")
               /\ (~HasKind(e, {"complex"}) /\ (HasKind(e, {"float"}) \/ HasDiv(e)) => Val.k = "float")
               /\ (~HasKind(e, {"complex", "float"}) /\ ~HasDiv(e) => Val.k = "int")
-BracketsTransparent == (done /\ e.t = "brk") => Val = Eval(e.a, Env, {})
+BracketsTransparent == (done /\ e.t = "brk") => Val = Eval(e.a, TheEnv, {})
 NegIsZeroMinus == (done /\ e.t = "neg" /\ IsExact(Val)) =>
-                    LET z == Arith("-", IntV(0), Eval(e.a, Env, {})) IN z.re = Val.re /\ z.im = Val.im
-Emit == done => PrintT(<<"CASE", ToJson([e |-> e, v |-> Val])>>)
+                    LET z == Arith("-", IntV(0), Eval(e.a, TheEnv, {})) IN z.re = Val.re /\ z.im = Val.im
+Emit == done => PrintT(<<"CASE", ToJson([e |-> e, v |-> Val, env |-> envsel])>>)
 =============================================================================
